@@ -9,7 +9,7 @@ CONSTANTS
   AttrChoices <- AttrChoicesNone
   WsChoices = {"v"}
   Words = {"w1"}
-  Exprs = {"E1"}
+  Exprs = {"E1", "E3"}
   Conds = {"C1"}
   Lists = {"L1"}
   EnvSeq <- EnvSeqDef
